@@ -786,7 +786,7 @@ func readPid(path string) int {
 }
 
 func checkC20(c *Ctx) {
-	c.rule = "the real ZnPMServer master and real worker processes (pmharness: pkg/server + playground handler, hook H1) are started per scenario; scenarios = configurations 1 <= init <= max <= 4 x client concurrency 1..16 x request mix (instant, busy loops, one / two / three requests that outlive --timeout at the same moment, connections that carry no HTTP request so that the accepting worker ends with status 0, requests that stall after part of their headers / part of their body) x scripted kill -9 of one or several live workers at once x execve delay injected with strace (0/5/20/60/150 ms, widens the window between 'spawned' and 'registered') x slow worker start-up x traffic that begins while the master is still starting its initial workers x --init-procs above --max-procs x the master running as process 1 of its own PID namespace x state reports handed to the bookkeeping 120-250 ms late (hook H7: reports overtaken by exits and registrations) x bursts of connections that make their worker report BUSY and end at once x a unix:// listening socket x --init-procs 0 x --max-procs 0 (held by refusing to start) x a --timeout too large for a duration x a request whose head arrives slowly and whose handler is slow (together longer than --timeout). Monitors: /proc children of the master every 2 ms (live workers <= max at every sample; init <= live <= max at a quiescent point = no request outstanding and live set unchanged for 1.5 s); offline checker over the handler log written at the worker boundary (per-worker request intervals never overlap, every token handled once, response == own token, timed-out worker gone); race-detector reports of a -race build are recorded for information only. distinct_nontrivial = distinct (scenario parameters) + distinct 4-grams over {worker_start, req_start, req_end} events seen"
+	c.rule = "the real ZnPMServer master and real worker processes (pmharness: pkg/server + playground handler, hook H1) are started per scenario; scenarios = configurations 1 <= init <= max <= 4 (and pools with more head-room than one spawn batch of ten: 2/16, 2/13, 1/24, 3/14 under a backlog of very short requests) x client concurrency 1..16 x request mix (instant, busy loops, one / two / three requests that outlive --timeout at the same moment, connections that carry no HTTP request so that the accepting worker ends with status 0, requests that stall after part of their headers / part of their body) x scripted kill -9 of one or several live workers at once x execve delay injected with strace (0/5/20/60/150 ms, widens the window between 'spawned' and 'registered') x slow worker start-up x traffic that begins while the master is still starting its initial workers x --init-procs above --max-procs x the master running as process 1 of its own PID namespace x state reports handed to the bookkeeping 120-250 ms late (hook H7: reports overtaken by exits and registrations) x bursts of connections that make their worker report BUSY and end at once x a unix:// listening socket x --init-procs 0 x --max-procs 0 (held by refusing to start) x a --timeout too large for a duration x a request whose head arrives slowly and whose handler is slow (together longer than --timeout). Monitors: /proc children of the master every 2 ms (live workers <= max at every sample; init <= live <= max at a quiescent point = no request outstanding and live set unchanged for 1.5 s); offline checker over the handler log written at the worker boundary (per-worker request intervals never overlap, every token handled once, response == own token, timed-out worker gone); race-detector reports of a -race build are recorded for information only. distinct_nontrivial = distinct (scenario parameters) + distinct 4-grams over {worker_start, req_start, req_end} events seen"
 	c.assumptions = []string{"a child that has been forked but has not exec'd yet is reported separately and not counted as a live worker", "strace execve delay injection only delays, it does not change behaviour", "not reaching a quiescent point within 60 s is inconclusive, not a violation"}
 	if _, err := exec.LookPath("strace"); err != nil {
 		c.Inconclusive("strace not found: " + err.Error())
@@ -859,7 +859,20 @@ func checkC20(c *Ctx) {
 		add(c20Scenario{initP: 2, maxP: 4, timeout: 2, clients: 8, requests: 10, mix: "mixed", kills: 3})
 		add(c20Scenario{initP: 2, maxP: 3, timeout: 2, clients: 8, requests: 8, mix: "busy", workerSlow: 80})
 		add(c20Scenario{initP: 1, maxP: 3, timeout: 2, clients: 8, requests: 8, mix: "mixed", race: true})
+		// more head-room than one spawn batch (the master grows by ten workers at a time): a
+		// backlog of very short requests makes workers report busy in quick succession while
+		// the batch before is still being started
+		add(c20Scenario{initP: 2, maxP: 16, timeout: 2, clients: 24, requests: 25, mix: "instant"})
+		add(c20Scenario{initP: 2, maxP: 13, timeout: 2, clients: 24, requests: 12, mix: "mixed", execDelay: 5})
+		add(c20Scenario{initP: 1, maxP: 24, timeout: 2, clients: 32, requests: 20, mix: "instant"})
+		add(c20Scenario{initP: 3, maxP: 14, timeout: 2, clients: 20, requests: 10, mix: "busy", early: true})
 	} else {
+		for _, hr := range [][2]int{{2, 16}, {2, 13}, {1, 24}, {3, 14}, {1, 11}, {5, 15}, {2, 32}, {8, 20}} {
+			add(c20Scenario{initP: hr[0], maxP: hr[1], timeout: 2, clients: 24, requests: 25, mix: "instant"})
+			add(c20Scenario{initP: hr[0], maxP: hr[1], timeout: 2, clients: 24, requests: 12, mix: "mixed", execDelay: 5})
+			add(c20Scenario{initP: hr[0], maxP: hr[1], timeout: 2, clients: 32, requests: 10, mix: "busy", early: true})
+			add(c20Scenario{initP: hr[0], maxP: hr[1], timeout: 2, clients: 24, requests: 10, mix: "mixed", kills: 3, killBurst: 2})
+		}
 		for initP := 1; initP <= 4; initP++ {
 			for maxP := initP; maxP <= 4; maxP++ {
 				for _, d := range []int{0, 5, 20, 60, 150} {
